@@ -42,7 +42,7 @@ use std::sync::atomic::Ordering;
 use std::sync::{Arc, Mutex};
 use std::time::Duration;
 
-pub const RULE: &str = "host command path, real AppClient -> recording client -> prost bytes + topic string -> broker double (filters the real node subscribed with) -> topic_and_payload_to_event -> real edge node with recording managers. Exhaustive: 27 value forms (every protobuf value variant raw, every scalar Rust type through PublishMetric::new::<T>) x 4 id forms (name, alias, birth details with / without alias) x metric timestamp present/absent x node/device topic x try/blocking, each published and delivered; client answer x try/blocking x node/device; every pair of 9 target forms (own node, own devices, unregistered device, other group / node, ids with '/', '+', '#', empty, STATE) x 3 batch shapes; publish_node_rebirth x cooldown {0, 5000 ms at offsets 4999 / 5000} x own / other node. Random: node configurations (ASCII, Unicode, long ids, 0-3 devices) with batches of 0-8 metrics (random ids incl. Unicode, 300-byte names, empty name, the rebirth name, alias 0 / 2^64-1; random values; timestamps 0 / 2^64-1), random targets (mostly the node and its devices, else odd ids), interleaved rebirth requests. Non-trivial = the case delivers at least one accepted call; distinct = distinct op lines (hashed).";
+pub const RULE: &str = "host command path, real AppClient -> recording client -> prost bytes + topic string -> broker double (filters the real node subscribed with) -> topic_and_payload_to_event -> real edge node with recording managers. Exhaustive: 27 value forms (every protobuf value variant raw, every scalar Rust type through PublishMetric::new::<T>) x 4 id forms (name, alias, birth details with / without alias) x metric timestamp present/absent x node/device topic x try/blocking, each published and delivered; client answer x try/blocking x node/device; every pair of 9 target forms (own node, own devices, unregistered device, other group / node, ids with '/', '+', '#', empty, STATE) x 3 batch shapes; publish_node_rebirth x cooldown {0, 5000 ms at offsets 4999 / 5000} x own / other node. Random: node configurations (ASCII, Unicode, long ids, 0-3 devices) with batches of 0-8 metrics (random ids incl. Unicode, 300-byte names, empty name, the rebirth name, alias 0 / 2^64-1; random values; timestamps 0 / 2^64-1), random targets (mostly the node and its devices, else odd ids), interleaved rebirth requests (also for pairs whose concatenation equals the node's ids split elsewhere). Confusable ids (D2): 12 (group, node) pairs with equal concatenations / swapped / prefix-related ids, every ordered pair as rebirth p - q - p and mixed with NCMD / DCMD publishes on one AppClient; C13:publish-topic-decodes-to-its-ids: the topic handed to the client splits at '/' into exactly the ids and verb the call was made for (valid ids). Non-trivial = the case delivers at least one accepted call; distinct = distinct op lines (hashed).";
 
 // ---------- a transparent MetricValue type: lets the public API carry any protobuf variant ----------
 struct Raw(metric::Value);
@@ -392,6 +392,13 @@ enum Target {
     Device(String, String, String),
 }
 
+fn target_concat(t: &Target) -> String {
+    match t {
+        Target::Node(g, n) => [g.as_str(), n.as_str()].concat(),
+        Target::Device(g, n, d) => [g.as_str(), n.as_str(), d.as_str()].concat(),
+    }
+}
+
 struct Sent {
     topic: String,
     payload: Payload,
@@ -417,6 +424,8 @@ struct Sess {
     app: AppClient,
     _app_loop: AppEventLoop,
     last: Option<Sent>,
+    /// the ids the previous host call was made for (C13: feature of a topic built for other ids)
+    last_target: Option<Target>,
     /// wall time of the last rebirth request that was answered with an NBIRTH
     last_honoured: Option<u64>,
 }
@@ -470,6 +479,7 @@ impl Sess {
             app,
             _app_loop: app_loop,
             last: None,
+            last_target: None,
             last_honoured: Some(0),
         };
         let evs = s.observe(|s| {
@@ -766,6 +776,31 @@ fn host_call(s: &mut Sess, api: Api, client_ok: bool, target: Target, clock: u64
     };
     if c.kind != want_kind || c.topic != want_topic {
         fail(out, "topic", &feature, format!("{} -> {} {}", op, c.kind.name(), c.topic));
+    }
+    // C13's own sentence, for ids accepted by name validation: the topic of every publish decodes (split at '/',
+    // done here, not by the library) to exactly the ids and the kind this call was made for - whatever the
+    // same client published before
+    {
+        let ids: Vec<&str> = match &target {
+            Target::Node(g, n) => vec![g.as_str(), n.as_str()],
+            Target::Device(g, n, d) => vec![g.as_str(), n.as_str(), d.as_str()],
+        };
+        if ids.iter().all(|i| name_ok(i)) {
+            let seg: Vec<&str> = c.topic.split('/').collect();
+            let verb = if device { "DCMD" } else { "NCMD" };
+            let decodes = seg.len() == ids.len() + 2 && seg[0] == "spBv1.0" && seg[1] == ids[0] && seg[2] == verb && seg[3..] == ids[1..] && c.kind == want_kind;
+            out.count("C13:publish-topic-checked");
+            if !decodes {
+                let prev = match &s.last_target {
+                    Some(p) if *p == target => "same-target-as-previous-call",
+                    Some(p) if target_concat(p) == target_concat(&target) => "previous-call-ids-concatenate-equally",
+                    Some(_) => "after-call-for-other-ids",
+                    None => "first-call",
+                };
+                out.fail("C13:publish-topic-decodes-to-its-ids", &format!("{}:{}", feature, prev), format!("{} -> {} {} (built for {:?})", op, c.kind.name(), c.topic, ids));
+            }
+        }
+        s.last_target = Some(target.clone());
     }
     // the caller sees the client's answer
     if res.is_ok() != client_ok {
@@ -1233,6 +1268,52 @@ pub fn run(args: &Args, out: &mut Out) -> &'static str {
         }
     }
     out.exhaustive.push("rebirth requests through publish_node_rebirth / publish_metrics / alternating x cooldown {0; 5000 ms at offsets 4999, +1, 5000, 4999, 5001; 10^9 ms}, each followed by four non-requests (other node, false, device topic, true-then-false)".into());
+    // (D2) sequences of calls on ONE AppClient for id tuples that are easily confused: equal concatenations
+    // ("ab"+"c" / "a"+"bc"), swapped ids, prefixes, repeated and alternating ids - rebirth requests and commands.
+    // C13: the topic of every publish decodes to exactly the ids it was built for, whatever was published before.
+    {
+        let pairs: Vec<(String, String)> = vec![
+            ("ab".into(), "c".into()),
+            ("a".into(), "bc".into()),
+            ("abc".into(), "abc".into()),
+            ("abca".into(), "bc".into()),
+            ("c".into(), "ab".into()),
+            ("g".into(), "n".into()),
+            ("gn".into(), "g".into()),
+            ("g".into(), "ng".into()),
+            ("é".into(), "éé".into()),
+            ("éé".into(), "é".into()),
+            ("NCMD".into(), "n".into()),
+            ("N".into(), "CMDn".into()),
+        ];
+        let mut ops = vec![newline(0)];
+        let mut clock = 1_000_000u64;
+        // every ordered pair (incl. the same pair twice), then back to the first: a-b-a
+        for p in &pairs {
+            for q in &pairs {
+                for (tg, tn) in [p, q, p] {
+                    clock += 1;
+                    ops.push(format!("hcmd rebirth a {} {} {}", hx(tg), hx(tn), clock));
+                }
+            }
+        }
+        ops.push("hcmd deliver".into());
+        run_case(out, &ops, "D2:confusable-ids:rebirth");
+        let mut ops = vec![newline(0)];
+        for p in &pairs {
+            for q in &pairs {
+                clock += 1;
+                ops.push(format!("hcmd rebirth a {} {} {}", hx(&p.0), hx(&p.1), clock));
+                ops.push(format!("hcmd pub blk.a n {} {} {} a1,~,t.u8,1", hx(&q.0), hx(&q.1), clock));
+                ops.push(format!("hcmd pub try.a d {} {} {} {} a1,~,t.u8,1", hx(&q.0), hx(&p.0), hx(&p.1), clock));
+                ops.push(format!("hcmd pub try.a d {} {} {} {} a1,~,t.u8,1", hx(&p.0), hx(&p.1), hx(&q.0), clock));
+                ops.push(format!("hcmd rebirth a {} {} {}", hx(&q.0), hx(&q.1), clock));
+            }
+        }
+        ops.push("hcmd deliver".into());
+        run_case(out, &ops, "D2:confusable-ids:mixed");
+        out.exhaustive.push("12 (group, node) pairs with equal concatenations / swapped / prefix-related ids (ASCII, 2-byte characters, ids spelling a verb): every ordered pair p, q as rebirth p - rebirth q - rebirth p on one AppClient, and as rebirth p - NCMD q - DCMD (q.g, p.g, p.n) - DCMD (p.g, p.n, q.g) - rebirth q".into());
+    }
     // (E) node configurations: odd but valid ids, invalid ids (refused), 0-3 devices
     {
         let cfgs: Vec<(String, String, Vec<String>)> = vec![
@@ -1292,6 +1373,12 @@ pub fn run(args: &Args, out: &mut Out) -> &'static str {
                 0..=3 => Target::Node(cg.clone(), cn.clone()),
                 4..=6 if !cd.is_empty() => Target::Device(cg.clone(), cn.clone(), r.pick(&cd).clone()),
                 7 => Target::Device(cg.clone(), cn.clone(), odd_id(&mut r)),
+                8 if r.chance(1, 2) => {
+                    // a valid pair whose concatenation equals that of the node's own ids (split elsewhere)
+                    let all: Vec<char> = format!("{}{}", cg, cn).chars().collect();
+                    let k = 1 + r.below((all.len() - 1) as u64) as usize;
+                    Target::Node(all[..k].iter().collect(), all[k..].iter().collect())
+                }
                 8 => Target::Node(if r.chance(1, 2) { cg.clone() } else { odd_id(&mut r) }, if r.chance(1, 2) { cn.clone() } else { odd_id(&mut r) }),
                 _ => Target::Device(if r.chance(1, 2) { cg.clone() } else { odd_id(&mut r) }, if r.chance(1, 2) { cn.clone() } else { odd_id(&mut r) }, if cd.is_empty() || r.chance(1, 2) { odd_id(&mut r) } else { r.pick(&cd).clone() }),
             };
